@@ -84,7 +84,9 @@ theorem frame_step (op : Op) (s : Store) (g' : String) (h : Inv s) (hk : op.keep
       · exact Frames.refl _ _
       · exact frames_addEdge g' s ia ib _ (Or.inl hia)
   | updateNodeProperty g nid k v =>
-    simp only [step, updateNodeProperty]
+    simp only [step]
+    refine assertVal_pred (Frames g' s) _ s _ (Frames.refl _ _) ?_
+    simp only [updateNodeProperty]
     split
     · exact Frames.refl _ _
     · simp only [Op.keepsGraphId, bne_iff_ne, ne_eq] at hk
@@ -105,7 +107,9 @@ theorem frame_step (op : Op) (s : Store) (g' : String) (h : Inv s) (hk : op.keep
           · exact frames_updFound s h g g' nid i hi _ (fun a => AMap.get_erase_ne _ _ _ hkg) hne
           · exact Frames.refl _ _
   | updateNodesProperty g k v =>
-    simp only [step, updateNodesProperty]
+    simp only [step]
+    refine assertVal_pred (Frames g' s) _ s _ (Frames.refl _ _) ?_
+    simp only [updateNodesProperty]
     split
     · exact Frames.refl _ _
     · split
@@ -121,7 +125,9 @@ theorem frame_step (op : Op) (s : Store) (g' : String) (h : Inv s) (hk : op.keep
       exact withNode_pred (Frames g' s) s g nid _ (Frames.refl _ _)
         (fun i hi => frames_updFound s h g g' nid i hi _ (fun a => AMap.get_update_not_mem _ _ _ hnk) hne)
   | updateLinkProperty g a b kind k v =>
-    simp only [step, updateLinkProperty]
+    simp only [step]
+    refine assertVal_pred (Frames g' s) _ s _ (Frames.refl _ _) ?_
+    simp only [updateLinkProperty]
     split
     · exact Frames.refl _ _
     · exact withLink_pred (Frames g' s) s g a b kind _ (Frames.refl _ _)
